@@ -15,6 +15,9 @@ cp $src/patch.diff $src/demo.py $src/meta.json /verif/seeded/$id/ 2>/dev/null
 props=${PROPS:-$id}
 results=""
 for p in $props; do
+  # the verdict on the patched copy only counts if the same check is silent on the unchanged tree
+  (cd /verif && ./check "$p" --tier ${TIER:-quick} >/dev/null 2>&1); rc0=$?
+  [ $rc0 -ne 0 ] && echo "[$id] BASELINE-ALARM: $p exits $rc0 on the unchanged tree - its verdict below proves nothing"
   out=$(cd /verif && VERIF_REPO="$d" ./check "$p" --tier ${TIER:-quick} 2>&1); rc=$?
   mech=$(echo "$out" | grep -E "mechanism=" | sed -E 's/ clause=.*//; s/^ *//' | sort | uniq -c | head -4 | tr '\n' ';')
   case $rc in 0) v=MISSED;; 1) v=CAUGHT;; *) v=INCONCLUSIVE;; esac
